@@ -328,8 +328,8 @@ def geometry_no_worse(name, s, const, g, curv):
 
 def cauchy_geometry_improves(s, const, g, curv, xl, xu, delta):
     """If a feasible first-order improving direction exists, |q| must grow
-    strictly (const = 0: always decided; const != 0: decided when a gain
-    far above one ulp of |const| is available along the improving ray)."""
+    strictly (const = 0: decided on |q(s)|; const != 0: the gain may be
+    below one ulp of |const|, only "the step is not the origin" is decided)."""
     col = _col()
     if col is None:
         return True
@@ -340,35 +340,28 @@ def cauchy_geometry_improves(s, const, g, curv, xl, xu, delta):
     lo = np.minimum(_f(xl), 0.0)
     hi = np.maximum(_f(xu), 0.0)
     if const != 0.0:
-        # const != 0: the first-order gain may be below one ulp of |const|,
-        # so the clause is only decided when a LARGE gain is available along
-        # the feasible part of the ray t * sign(const) * g (first-order
-        # improving by construction): then the zero gain of the returned
-        # step cannot be blamed on representability
-        d = float(np.sign(const)) * g
-        d = np.where(((d > 0) & (hi <= 0)) | ((d < 0) & (lo >= 0)), 0.0, d)
-        nd = float(np.linalg.norm(d))
-        if not (nd > 0 and np.isfinite(nd) and np.isfinite(const)):
+        # const != 0: a strict gain may be far below one ulp of |const| (tiny
+        # gradient, curvature of the other sign along the solver's path), so
+        # |q(s)| computed in floating point cannot decide the clause.  What
+        # CAN be decided: when a feasible direction exists along which |q|
+        # grows to first order (room on the side sign(const)*g_i of some
+        # variable), the step returned is not the origin.
+        if not np.isfinite(const):
             return True
-        with np.errstate(divide="ignore", invalid="ignore"):
-            lim = np.where(d > 0, hi / d, np.where(d < 0, lo / d, np.inf))
-        t_max = min(float(np.min(lim)), delta / nd)
-        if not (np.isfinite(t_max) and t_max > 0):
-            return True
-        cd = float(curv(d))
-        ref = max(abs(const + t * float(g @ d) + 0.5 * t * t * cd)
-                  for t in (t_max, 0.5 * t_max, 0.1 * t_max))
-        if not (np.isfinite(ref) and ref > abs(const) * (1 + 1e-6)):
+        sg = float(np.sign(const)) * g
+        room = np.where(sg > 0, np.minimum(hi, delta),
+                        np.where(sg < 0, np.minimum(-lo, delta), 0.0))
+        gain = np.abs(g) * room
+        scale = float(np.max(np.abs(g), initial=0.0)) * delta
+        if not (np.max(gain, initial=0.0) > 1e-6 * scale and scale > 1e-280):
             return True
         col.tags.add("improving_direction_exists_const")
-        qs = const + float(g @ s) + 0.5 * float(curv(s))
-        if not abs(qs) > abs(const):
+        if not np.any(s != 0.0):
             col.bad("C16", "cauchy_geometry_no_progress",
-                    f"cauchy_geometry returned a step with |q(s)|="
-                    f"{abs(qs)!r} <= |const|={abs(const)!r} although "
-                    f"|q|={ref!r} is reached along the feasible first-order "
-                    f"improving ray sign(const)*g (g={g.tolist()}, box "
-                    f"[{lo.tolist()}, {hi.tolist()}], delta={delta!r})",
+                    f"cauchy_geometry returned the origin (|q| = |const| = "
+                    f"{abs(const)!r}) although g={g.tolist()} has room on the "
+                    f"side that increases |q| in the box [{lo.tolist()}, "
+                    f"{hi.tolist()}] within delta={delta!r}",
                     mechanism="cauchy_geometry_zero_step:const",
                     g=g, xl=lo, xu=hi, delta=delta, s=s, const=const)
         return True
